@@ -5,6 +5,7 @@ UEmitted == {k \in Emitted : k.s > 0 \/ k.t > 0}
 (* a Before-chain mixing the three forms:  1 < 3:1 < 3:2 < 2::3 ... picked so that consecutive ones are ordered *)
 UChain == {Mk(0,0,1), Mk(0,0,2), Mk(0,3,1), Mk(0,3,2), Mk(0,0,3), Mk(1,0,3)}
 USmall == {Mk(0,2,1), Mk(0,0,2), Mk(1,0,2)}
+UTwo == {Mk(0,2,1), Mk(0,0,2)}
 (* Simulation: TLC picks uniformly among SUCCESSOR STATES, so with Next an action that has 70 argument choices
    is taken 70 times as often as Tick.  SimNext draws the arguments with RandomElement, giving one successor per
    action kind (Tick doubled, Cancel only near the end), so that ticks and late notifications interleave. *)
